@@ -25,11 +25,13 @@ LEVEL = "fault_enumeration"
 RULE = ("(a) enumerated delivery patterns through a real node's update(): messages of 2..4 fragments (thorough 2..6), every "
         "fragment {dropped, once, twice} (3^f), every single adjacent transposition, a full replay of the stream, all "
         "interleavings of two senders' streams (2-3 fragments each) with equal and with different frame ids, two consecutive "
-        "messages of the same sender with every subset of fragments lost, the stream (with repeated tail / full replay / "
+        "messages of the same sender with every subset of fragments lost (different frame ids; and the same frame id whenever the second "
+        "message's FIRST fragment arrives), messages of 5..7 fragments complete / one loss / one duplicate / one transposition, the stream (with repeated tail / full replay / "
         "drop-dup patterns) arriving at a queue that already holds 5 or 6 (= max_queue_size) whole messages of another sender, three senders "
         "round-robin, stray MORE/LAST with no FIRST (incl. ids equal to the node's freshly built cache), each with every "
         "dequeue position; node roles: network node at levels 0..2 and mesh master; (b) seeded full-stack runs: 2-3 child "
-        "senders writing fragmented messages concurrently with coinciding or different frame ids under packet/ACK loss. "
+        "senders writing fragmented messages (a quarter of them up to 168 bytes, a quarter re-using one frame id for two messages) "
+        "concurrently with coinciding or different frame ids under packet/ACK loss. "
         "Non-trivial: at least two fragment frames reached the node; distinct = distinct arrival sequences x dequeue position")
 ASSUMPTIONS = ["reference fragmenter checks/netref.fragment (TMRh20 numbering)", "chip model M4 (fresh PID per injected frame)",
                "nothing is claimed about which messages get through"]
@@ -94,6 +96,32 @@ def _enum(tier):
             seq = [full[k] for k in range(fa + fb) if (mask >> k) & 1]
             if len(seq) >= 2:
                 cases.append((st, seq, "two_msgs_same_sender"))
+    # two consecutive messages of the same sender that carry the SAME frame id (re-used header object, id counter wrapped):
+    # whenever the second message's FIRST fragment arrives, whatever was cached of the first one must be discarded
+    # (patterns that lose that FIRST fragment are left out: their remaining fragments are indistinguishable on the wire)
+    for fa, fb in ((2, 2), (3, 2), (3, 3)) if tier == "quick" else ((2, 2), (2, 3), (3, 2), (3, 3), (4, 3), (4, 4)):
+        st = _streams((fa, fb), 2, True)
+        st[1]["sender"] = 0
+        full = [[0, j] for j in range(fa)] + [[1, j] for j in range(fb)]
+        for mask in range(1, 1 << (fa + fb)):
+            if not (mask >> fa) & 1:
+                continue
+            seq = [full[k] for k in range(fa + fb) if (mask >> k) & 1]
+            if len(seq) >= 2:
+                cases.append((st, seq, "two_msgs_same_sender_same_id"))
+    # long messages (5..7 fragments; 7 = more than the default max_message_length of the sender): complete, every single
+    # loss, every single duplicate, every adjacent transposition
+    for f in (5, 6, 7):
+        st = _streams(f, types=(65, 33, 2))
+        full = [[0, j] for j in range(f)]
+        cases.append((st, full, "long_complete"))
+        for k in range(f):
+            cases.append((st, full[:k] + full[k + 1:], "long_drop1"))
+            cases.append((st, full[:k] + [full[k]] + full[k:], "long_dup1"))
+        for k in range(f - 1):
+            seq = list(full)
+            seq[k], seq[k + 1] = seq[k + 1], seq[k]
+            cases.append((st, seq, "long_transpose"))
     for same in (True, False):
         st = _streams((2, 3, 2), 3, same)
         seq = [[0, 0], [1, 0], [2, 0], [0, 1], [1, 1], [2, 1], [1, 2]]
@@ -111,7 +139,7 @@ def _enum(tier):
     # x dequeue position
     out = []
     for st, seq, kind in cases:
-        for deq in range(0, len(seq) + 1):
+        for deq in (range(0, len(seq) + 1) if not kind.startswith("long_") else (0, len(seq) - 1)):
             out.append((st, seq, kind, deq, 0))
     # x a queue that is (nearly) full of other senders' whole messages when the stream arrives: a completed message may be
     # refused by the bounded queue; the application drains the queue at the dequeue position and the stream's tail comes again
@@ -166,6 +194,13 @@ def make(i, base_seed, tier):
         senders.append({"addr": recv | (d << (3 * lv)), "fid": fid if same else rng.getrandbits(16), "len": rng.randint(25, 144),
                         "type": rng.randint(0, 127), "seed": rng.getrandbits(20), "n": rng.randint(1, 2), "knobs": random_mcu_knobs(kr, stalls=False),
                         "delay_us": rng.randint(0, 3000)})
+        x = stream(seed, "ext%d" % d)
+        if x.random() < 0.25:     # sender configured for longer messages than the default (7 fragments)
+            senders[-1]["maxlen"] = 168
+            senders[-1]["len"] = x.randint(140, 168)
+        if x.random() < 0.25:     # the sender's messages re-use one header (same frame id); direct children only send fragment k+1
+            senders[-1]["reuse_id"] = True   # after fragment k was acknowledged, so a later message's FIRST always precedes its tail
+            senders[-1]["n"] = 2
     ar = stream(seed, "air")
     p = rng.choice([0.0, 0.05, 0.1, 0.2])
     return {"seed": seed, "layer": "b", "recv": recv, "recv_knobs": random_mcu_knobs(kr, stalls=False), "senders": senders,
@@ -289,7 +324,7 @@ def _run_b(scn, w, res):
     sent = []
     cmds = []
     for s in scn["senders"]:
-        msgs = [(s["type"], payload(s["seed"] + j, s["len"])) for j in range(s["n"])]
+        msgs = [(s["type"], payload(s["seed"] + j, s["len"] - (j if s.get("reuse_id") and s["len"] > 25 else 0))) for j in range(s["n"])]
         for (t, d) in msgs:
             sent.append((s["addr"], t, d))
 
@@ -298,9 +333,11 @@ def _run_b(scn, w, res):
             import circuitpython_nrf24l01.network.mixins as mix
             mix.time.sleep(s["delay_us"] / 1e6)
             out = []
+            if s.get("maxlen"):
+                node.max_message_length = s["maxlen"]
             for j, (t, d) in enumerate(msgs):
                 h = RF24NetworkHeader(recv, t)
-                h.frame_id = (s["fid"] + j) & 0xFFFF
+                h.frame_id = (s["fid"] + (0 if s.get("reuse_id") else j)) & 0xFFFF
                 out.append(node.write(RF24NetworkFrame(h, d)))
             return out
         cmds.append(net.post(s["addr"], "write", do))
